@@ -12,7 +12,7 @@ RULE = {
     "C13": "three simulation kinds (single-cycle, five-stage with random cache configurations and hazard flag, TOY) x programs ending by fall-through, jump outside the program, exit ecall with younger instructions in flight, fault, or empty text x load histories of 0-5 earlier well-formed and malformed loads; "
     "monitors: snapshot unchanged by step()/run() after done, step() return value == not is_done(), run() twin == step-loop twin, reloaded twin == fresh twin in snapshot and in every later step. "
     "non-trivial = case with a non-empty load history containing a failed load, or a terminal pipeline state reached through an exit ecall / jump outside; distinct by case hash.",
-    "C16": "twin A calls random subsets/repetitions of every inspection function between steps, twin B is NEVER inspected: at comparison points (every step / every k-th step / only at the end) a deepcopy of B is inspected and compared with A on the full snapshot, the two snapshots calling the inspection functions in independent random orders; both RISC-V modes x random D/I cache configurations x hazard flag, and TOY incl. between half cycles. "
+    "C16": "twin A calls random subsets/repetitions of every inspection function between steps, twin B is stepped by a parent process that NEVER executes inspection code; at comparison points (every step / every k-th step / only at the end) a freshly forked child inspects B once and the snapshot is compared with A's (recorded in its own forked child), the two snapshots calling the inspection functions in independent random orders; both RISC-V modes x random D/I cache configurations x hazard flag, and TOY incl. between half cycles. "
     "non-trivial = run with a cache enabled and >=1 miss after an inspection burst (TOY: >=1 burst between half cycles); distinct by case hash.",
 }
 ASSUMPTIONS = {
@@ -352,86 +352,178 @@ def directed_life():
 # ------------------------------------------------------------------------------------------- C16
 
 
+def _in_child(fn):
+    """run fn() in a forked child and return its (picklable) result.  The child starts from the parent's memory
+    image - in particular from the parent's class-/module-level state of the repository - and whatever it does to
+    that state dies with it."""
+    import os
+    import pickle
+    import signal
+    import traceback
+
+    r, w = os.pipe()
+    pid = os.fork()
+    if pid == 0:
+        try:
+            os.close(r)
+            signal.alarm(60)
+            try:
+                out = ("ok", fn())
+            except BaseException:
+                out = ("err", traceback.format_exc()[-1500:])
+            with os.fdopen(w, "wb") as f:
+                pickle.dump(out, f)
+        finally:
+            os._exit(0)
+    os.close(w)
+    with os.fdopen(r, "rb") as f:
+        data = f.read()
+    os.waitpid(pid, 0)
+    if not data:
+        raise RuntimeError("forked inspection child died without a result")
+    kind, val = pickle.loads(data)
+    if kind == "err":
+        raise RuntimeError("forked inspection child failed: " + val)
+    return val
+
+
 def run_pure_case(case, res):
-    """twin A: random bursts of inspection calls between steps.  twin B: NEVER inspected - whenever a comparison
-    is due, a deepcopy of B is inspected (so B stays blind for the whole run).  The two snapshots call the
-    inspection functions in independent random orders, so an inspection that influences a later one (in the same
-    step or any later step) shows up as a difference."""
-    import copy
+    """The property: every inspection result (and all behaviour) is identical to a run WITHOUT the earlier calls.
+    Three processes make 'without' literal:
+      * a forked child runs twin A with random bursts of inspection calls between steps and records its snapshots;
+      * the parent steps twin B and NEVER executes inspection code at all (so neither B nor the process-wide
+        class-/module-level state of the repository is ever touched by an inspection);
+      * at every comparison point a fresh child is forked from that clean parent, inspects B once (independent
+        random call order) and reports the snapshot, which must equal A's.
+    An inspection that changes its own later result, another inspection's result, later behaviour, or shared
+    class-level tables is therefore observed."""
     import random
 
     kind, cfg = case["sim"], case["cfg"]
     res.count({"toy": "toy_cases", "five": "five_cases", "single": "single_cases"}[kind])
-    rng = random.Random(case["seed"])
-    A_, B_ = make_sim(kind, cfg), make_sim(kind, cfg)
-    for s in (A_, B_):
-        if safe_load(s, case["text"]) is not None:
-            return
-        init_regs(kind, s, case["regs"])
     names = INSPECT_TOY if kind == "toy" else INSPECT_RISCV
-    insp = (lambda s, n: call_toy_inspection(s, n)) if kind == "toy" else (lambda s, n: call_inspection(s, n))
-    every = case["join_step"]  # reused as comparison density: 0 -> every step, k -> every k-th step, huge -> only at the end
-    n = 0
-    nt = False
+    every = case["join_step"]  # comparison density: 0 -> every step, k -> every k-th step, huge -> only at the end
+    snapf = toy_snapshot if kind == "toy" else riscv_snapshot
 
-    def burst(sim):
-        for _ in range(rng.randint(0, 3)):
-            for name in rng.sample(names, rng.randint(1, len(names))):
-                for _ in range(rng.choice([1, 1, 2, 3])):
-                    insp(sim, name)
-                    res.count("inspection_calls")
+    def build():
+        s_ = make_sim(kind, cfg)
+        if safe_load(s_, case["text"]) is not None:
+            return None
+        init_regs(kind, s_, case["regs"])
+        return s_
 
-    def misses(sim):
+    def plan_rng():
+        return random.Random(case["seed"])  # identical structural choices (half/whole steps) in both processes
+
+    def due(n):
+        return every == 0 or (every < 10**5 and n % every == 0)
+
+    def run_a():
+        """twin A (in the child): bursts of inspections, snapshots at the comparison points"""
+        rngb = random.Random(case["seed"] + 1)
+        pr = plan_rng()
+        a_ = build()
+        if a_ is None:
+            return None
+        insp = (lambda n_: call_toy_inspection(a_, n_)) if kind == "toy" else (lambda n_: call_inspection(a_, n_))
+        calls = [0]
+        halves = [0]
+
+        def burst():
+            for _ in range(rngb.randint(0, 3)):
+                for name in rngb.sample(names, rngb.randint(1, len(names))):
+                    for _ in range(rngb.choice([1, 1, 2, 3])):
+                        insp(name)
+                        calls[0] += 1
+
+        snaps = []
+        burst()
+        snaps.append(snapf(a_, rngb.sample(names, len(names))))
+        n = 0
+        while not a_.is_done() and n < case["max_steps"]:
+            try:
+                if kind == "toy" and pr.random() < 0.5:
+                    a_.first_cycle_step()
+                    burst()  # inspection between the two half cycles
+                    halves[0] += 1
+                    if pr.random() < 0.6:
+                        snaps.append(snapf(a_, rngb.sample(names, len(names))))  # compared mid-instruction as well
+                    a_.second_cycle_step()
+                else:
+                    a_.step()
+            except Exception:
+                snaps.append("EXC")
+                break
+            n += 1
+            burst()
+            if due(n):
+                snaps.append(snapf(a_, rngb.sample(names, len(names))))
+        snaps.append(snapf(a_, rngb.sample(names, len(names))))
+        return {"snaps": snaps, "calls": calls[0], "halves": halves[0], "steps": n}
+
+    A = _in_child(run_a)
+    if A is None:
+        return
+    res.count("inspection_calls", A["calls"])
+    if A["halves"]:
+        res.count("toy_half_cycle_bursts", A["halves"])
+    snaps = A["snaps"]
+    rngo = random.Random(case["seed"] + 2)
+    pr = plan_rng()
+    b_ = build()
+    si = [0]
+
+    def misses():
         if kind == "toy":
             return 0
         t = 0
-        for st in (sim.state.memory.get_cache_stats(), sim.state.instruction_memory.get_cache_stats()):
+        for st in (b_.state.memory.get_cache_stats(), b_.state.instruction_memory.get_cache_stats()):
             if st:
                 t += int(st["accesses"]) - int(st["hits"])
         return t
 
     def compare(where):
-        blind = copy.deepcopy(B_)
-        oa, ob = rng.sample(names, len(names)), rng.sample(names, len(names))
-        a = (toy_snapshot(A_, oa) if kind == "toy" else riscv_snapshot(A_, oa))
-        b = (toy_snapshot(blind, ob) if kind == "toy" else riscv_snapshot(blind, ob))
+        order = rngo.sample(names, len(names))
+        b = _in_child(lambda: snapf(b_, order))
+        a = snaps[si[0]] if si[0] < len(snaps) else None
+        si[0] += 1
         res.count("snapshots_compared")
         res.count("blind_twin_joins")
         if a != b:
-            res.violation("C16", "inspection-impure", "%s: the inspected twin differs from a never-inspected twin in %s (inspection call orders %s vs %s)" % (where, diff_names(a, b), [x[:18] for x in oa[:4]], [x[:18] for x in ob[:4]]), case)
+            what = diff_names(a, b) if isinstance(a, list) and isinstance(b, list) else "the run itself (%r vs snapshot)" % (a,)
+            res.violation("C16", "inspection-impure", "%s: the inspected twin differs from a twin that was never inspected (inspected once, in a fresh process) in %s" % (where, what), case)
             return False
         return True
 
-    burst(A_)
+    nt = False
     if not compare("before the first step"):
         return
-    while not B_.is_done() and n < case["max_steps"]:
-        m_before = misses(B_)
+    n = 0
+    while not b_.is_done() and n < case["max_steps"]:
+        m_before = misses()
         try:
-            if kind == "toy" and rng.random() < 0.5:
-                # inspection between the two half cycles (twin B does the same halves, uninspected)
-                A_.first_cycle_step()
-                burst(A_)
-                res.count("toy_half_cycle_bursts")
+            if kind == "toy" and pr.random() < 0.5:
+                # (twin A did the same instruction as two half cycles with inspections in between)
                 nt = True
-                A_.second_cycle_step()
-                B_.step()
+                b_.first_cycle_step()
+                if pr.random() < 0.6:
+                    if not compare("between the half cycles of instruction %d" % (n + 1)):
+                        return
+                b_.second_cycle_step()
             else:
-                A_.step()
-                B_.step()
+                b_.step()
         except Exception:
-            # faulting program: both twins fault alike (C15 judges the exception itself)
-            try:
-                B_.step()
-            except Exception:
-                pass
+            if si[0] < len(snaps) and snaps[si[0]] == "EXC":
+                si[0] += 1
+            else:
+                res.violation("C16", "inspection-impure", "the never-inspected twin raised at step %d, the inspected twin did not" % (n + 1), case)
+                return
             break
         n += 1
-        if kind != "toy" and misses(B_) > m_before:
+        if kind != "toy" and misses() > m_before:
             res.count("cache_misses_after_burst")
             nt = True
-        burst(A_)
-        if every == 0 or (every < 10**5 and n % every == 0):
+        if due(n):
             if not compare("after step %d" % n):
                 return
     if not compare("at the end (after %d steps)" % n):
@@ -453,6 +545,12 @@ def gen_pure_case(rng):
         regs["17"] = 4
         regs["10"] = 0x4000
     text = asm_text(prog)
+    if kind == "single" and rng.random() < 0.35:
+        # CSR instructions execute in single-cycle mode (and take the 'no visualisation' path of the SVG list)
+        lines = text.split("\n")
+        for _ in range(rng.randint(1, 3)):
+            lines.insert(rng.randrange(len(lines) + 1), rng.choice(["csrrw x5, 0x001, x6", "csrrs x7, 0x0ff, x0", "csrrwi x5, 0x002, 7", "csrrc x6, 0x400, x5", "csrrsi x0, 0x800, 3", "csrrci x9, 0x001, 1"]))
+        text = "\n".join(lines)
     if rng.random() < 0.4:
         text = ".data\nd0: .word 1, 2, 3\nd1: .string \"abc\"\n.text\n" + text
     return {"kind": "pure", "sim": kind, "cfg": cfg, "text": text, "regs": regs, "max_steps": 250, "join_step": rng.choice([0, 1, 2, 3, 7, 10**6]), "seed": rng.getrandbits(30)}
